@@ -213,7 +213,7 @@ def workload(ctx, lentil):
                         forms.append('array')
                 ctx.case({'start': start, 'prog': list(prog), 'form': 'disjoint'}, ['form:disjoint'])
                 run_program(ctx, lentil, start, prog, traces, forms=forms)
-    nrand = 150 if ctx.tier == 'quick' else 1500
+    nrand = ctx.count(150, 1500)
     for i in range(nrand):
         start = ['none', 'pupil', 'image'][int(rng.integers(0, 3))]
         L = int(rng.integers(5, 11))
